@@ -18,3 +18,17 @@ mod escape;
 mod js_bindings;
 mod path;
 mod proc_gen;
+
+/// Verification hooks (only compiled with `--cfg glass_easel_verif`).
+#[cfg(glass_easel_verif)]
+pub mod verif_hooks {
+    /// Re-export of the crate-private path normalizer (otherwise reachable only through the wasm bindings).
+    pub fn path_normalize(path: &str) -> String {
+        crate::path::normalize(path)
+    }
+
+    /// Re-export of the crate-private path resolver.
+    pub fn path_resolve(base: &str, rel: &str) -> String {
+        crate::path::resolve(base, rel)
+    }
+}
